@@ -177,15 +177,18 @@ Lemma fallback_iff_405_501_same_params_lemma path enc b rest :
   (* what the peer receives: the POST form, then a GET with the same parameters iff the POST was answered 405/501 *)
   rev (n_seen (snd r)) =
     post_form path enc ::
-    match b with SResp c _ => if is_fallback_code c then [get_query path enc] else [] | _ => [] end /\
+    match received_code b with Some c => if is_fallback_code c then [get_query path enc] else [] | None => [] end /\
   (* which answer decides *)
   match b with
   | SResp c p => fst r = if is_fallback_code c then api_do (answer_of (hd_error rest)) else api_do (OResp c p)
+  | SCutBody c =>      (* the body could not be read: never a success; after 405/501 the GET decides *)
+      if is_fallback_code c then fst r = api_do (answer_of (hd_error rest))
+      else d_err (fst r) = Some EOther /\ d_warn (fst r) = []
   | _ => d_err (fst r) = Some EOther /\ d_warn (fst r) = []   (* transport failure or cancellation: an error *)
   end.
 Proof.
   unfold do_get_fallback, start_net, http_do. cbn [n_done n_script n_seen].
-  destruct b as [c p| | |c]; cbn [n_done n_script n_seen answer_of].
+  destruct b as [c p| | |c|c]; cbn [n_done n_script n_seen answer_of received_code].
   - (* answered *)
     rewrite d_resp_answered. destruct (is_fallback_code c) eqn:F.
     + destruct rest as [|b2 rest2]; cbn [hd_error answer_of n_seen snd fst rev app]; [split; reflexivity|].
@@ -195,6 +198,11 @@ Proof.
   - rewrite d_resp_failed. repeat split; reflexivity.
   - (* cancelled while the body is read: a second request is attempted if the status was 405/501, but its context is done *)
     rewrite d_resp_failed. destruct (is_fallback_code c); repeat split; reflexivity.
+  - (* the transport failed while the body was read: the status is known, the context is alive *)
+    rewrite d_resp_failed. destruct (is_fallback_code c) eqn:F.
+    + destruct rest as [|b2 rest2]; cbn [hd_error answer_of n_seen snd fst rev app]; [split; reflexivity|].
+      destruct b2; cbn [hd_error answer_of n_seen snd fst rev app]; split; reflexivity.
+    + repeat split; reflexivity.
 Qed.
 
 (* once the context is done nothing is sent and an error comes back *)
@@ -416,6 +424,7 @@ Lemma http_do_start rq script pre :
        | SDrop :: rest => (OErr None, {| n_script := rest; n_done := false; n_seen := [rq] |})
        | SCancelHdr :: rest => (OErr None, {| n_script := rest; n_done := true; n_seen := [rq] |})
        | SCancelBody c :: rest => (OErr (Some c), {| n_script := rest; n_done := true; n_seen := [rq] |})
+       | SCutBody c :: rest => (OErr (Some c), {| n_script := rest; n_done := false; n_seen := [rq] |})
        end.
 Proof. unfold http_do, start_net. cbn [n_done n_script n_seen]. destruct pre; [reflexivity|]. destruct script as [|[]]; reflexivity. Qed.
 
@@ -443,13 +452,13 @@ Proof.
       pose proof (fallback_iff_405_501_same_params_lemma (spec_segments [] c) (spec_params c) b rest) as [F _].
       cbv zeta in F.
       destruct (do_get_fallback (spec_segments [] c) (spec_params c) (start_net (b :: rest) false)) as [d n'].
-      exact F.
+      cbn [snd] in F |- *. rewrite F. destruct b; reflexivity.
 Qed.
 
 Lemma answer_ok c b : (forall code p, b = SResp code p -> wf_answer code p) ->
   spec_result_ok c (Some b) (finish c (api_do (answer_of (Some b)))) = true.
 Proof.
-  intros WF. destruct b as [code p| | |code]; try reflexivity.
+  intros WF. destruct b as [code p| | |code|code]; try reflexivity.
   apply finish_answer_ok. apply WF. reflexivity.
 Qed.
 
@@ -475,7 +484,7 @@ Proof.
       cbv zeta in F.
       destruct (do_get_fallback segs enc (start_net (b :: rest) false)) as [d n'].
       cbn [fst] in *.
-      destruct b as [code p| | |code].
+      destruct b as [code p| | |code|code].
       * destruct (is_fallback_code code).
         -- subst d. destruct rest as [|b2 rest2]; [reflexivity|].
            cbn [hd_error].
@@ -484,6 +493,11 @@ Proof.
       * destruct F as [F _]. cbn [spec_result_ok]. rewrite (finish_failed_is_error c d F). reflexivity.
       * destruct F as [F _]. cbn [spec_result_ok]. rewrite (finish_failed_is_error c d F). reflexivity.
       * destruct F as [F _]. cbn [spec_result_ok]. rewrite (finish_failed_is_error c d F). reflexivity.
+      * destruct (is_fallback_code code).
+        -- subst d. destruct rest as [|b2 rest2]; [reflexivity|].
+           cbn [hd_error].
+           apply answer_ok. intros code2 p2 E. apply WF. right. left. exact E.
+        -- destruct F as [F _]. cbn [spec_result_ok]. rewrite (finish_failed_is_error c d F). reflexivity.
 Qed.
 
 (* read off: a nil error at the end of a call *)
@@ -494,17 +508,19 @@ Lemma call_nil_error_only_if_lemma prefix c script pre : wf_script script ->
 Proof.
   intros WF H. pose proof (run_call_result_ok_lemma prefix c script pre WF) as R.
   assert (forall code parsed, In (SResp code parsed) script -> spec_final c script pre = Some (SResp code parsed) -> wf_answer code parsed) as WF' by (intros; apply WF; assumption).
-  destruct (spec_final c script pre) as [[code parsed| | |code]|] eqn:SF; unfold spec_result_ok in R; rewrite H in R; try discriminate.
+  destruct (spec_final c script pre) as [[code parsed| | |code|code]|] eqn:SF; unfold spec_result_ok in R; rewrite H in R; try discriminate.
   exists code, parsed. split; [reflexivity|].
   assert (wf_answer code parsed) as WA.
   { unfold spec_final in SF. destruct pre; [discriminate|].
     destruct (spec_kind c); destruct script as [|b rest]; try discriminate.
     - inversion SF. subst b. apply WF. left. reflexivity.
     - inversion SF. subst b. apply WF. left. reflexivity.
-    - destruct b as [c1 p1| | |c1]; try (inversion SF; fail).
-      destruct (is_fallback_code c1).
-      + destruct rest as [|b2 rest2]; [discriminate|]. cbn [hd_error] in SF. inversion SF. subst b2. apply WF. right. left. reflexivity.
-      + inversion SF. subst c1 p1. apply WF. left. reflexivity. }
+    - destruct b as [c1 p1| | |c1|c1]; try (inversion SF; fail).
+      + destruct (is_fallback_code c1).
+        * destruct rest as [|b2 rest2]; [discriminate|]. cbn [hd_error] in SF. inversion SF. subst b2. apply WF. right. left. reflexivity.
+        * inversion SF. subst c1 p1. apply WF. left. reflexivity.
+      + destruct (is_fallback_code c1); [|inversion SF].
+        destruct rest as [|b2 rest2]; [discriminate|]. cbn [hd_error] in SF. inversion SF. subst b2. apply WF. right. left. reflexivity. }
   destruct (spec_expect code parsed) eqn:SE; [discriminate|].
   apply andb_true_iff in R. destruct R as [_ R].
   unfold spec_expect in SE. destruct (is_2xx code) eqn:E2.
